@@ -1,6 +1,7 @@
 package main
 
 import (
+	"go/types"
 	"flag"
 	"fmt"
 	"os"
@@ -27,6 +28,7 @@ type Ctx struct {
 	callers                            map[*ssa.Function][]ssa.CallInstruction
 	nonStatic                          map[*ssa.Function]bool
 	bmem                               *bndMem
+	rtGlobals                          map[*ssa.Global]types.Type
 	bce                                []*bceResidual
 	bceErr                             error
 	bret                               map[bretKey][]bretFact
@@ -211,6 +213,8 @@ func doDump(c *Ctx, what string) {
 		dumpWriteSites(c)
 	case what == "guards":
 		dumpGuardSites(c)
+	case what == "panicops":
+		dumpPanicOps(c)
 	case what == "bnd":
 		dumpBND(c)
 	case what == "boxed":
